@@ -826,6 +826,13 @@ int32_t pstm_lshd(pstm_int *a, uint16_t b)
     {
         return PSTM_OKAY;
     }
+    /* The new digit count must fit the 16-bit used/alloc fields (and the
+       psSize_t argument of pstm_grow): a wrapped count would let the loops
+       below write b digits into a smaller array */
+    if ((uint32_t) a->used + b > PSTM_MAX_SIZE)
+    {
+        return PSTM_MEM;
+    }
     /* Grow to fit the new digits.  */
     if (a->alloc < a->used + b)
     {
